@@ -5,6 +5,7 @@ import Proofs.E2E.C12Cof
 import Proofs.C12.EC
 import Proofs.C12.PyTree
 import Proofs.C12.Control
+import Proofs.C12.Explicit
 import Proofs.E2E.CofactorOne
 /-!
 # C12 — taproot outputs commit to exactly their key and script tree (DESIGN.md §3 C12)
@@ -255,6 +256,92 @@ theorem control_block_fields (o : GroupOps α) (H : TagHash) (q script : Bytes) 
     checkOutputPubkey o H q script (c0 :: (xb ++ path)) = checkFields o H q script c0.toNat xb path m :=
   check_eq o H q script c0 xb path m hx hp hm
 
+/-- T1p (**the control-block path proves its leaf, EVERY tree shape** — induction over the tree): `tree_helper`'s answer
+    is, position by position in tree order, `(leaf at the position, pathOf tree position)`; and at every position that
+    holds a leaf `(v, s)`: the path has one 32-byte node per level, the position is no deeper than the tree, the version
+    is the masked one, and `foldPath (leafHash v s) (pathOf tree position) = merkle root` — the `k < e` test going up
+    being the sort `tree_helper` applied going down. -/
+theorem path_of_every_leaf_folds_to_root {H : TagHash} (h32 : Len32 H) (t : Tree) :
+    (leaves H t).map some = t.positions.map (fun p => (t.leafAt p).map (fun lf => (lf, pathOf H t p))) ∧
+    (leaves H t).map (·.1) = t.flatten ∧
+    ∀ (p : List Bool) (v : Nat) (s : Bytes), t.leafAt p = some (v, s) →
+      (pathOf H t p).length = 32 * p.length ∧ p.length ≤ t.depth ∧
+      foldPath H (leafHash H v s) (pathOf H t p) p.length = root H t ∧ v &&& LEAF_MASK = v :=
+  ⟨leaves_eq_positions H t, leaves_fst H t, pathOf_folds h32 t⟩
+
+/-- T1c (control-block CONSTRUCTION, any group operations, any key — `None` / `b""` included — any tree): whatever
+    `input_script_sig(key, tree, i)` answers is the script of the `i`-th leaf `(v, s)` in tree order and the block
+    `(parity + v) ‖ x-only internal key ‖ pathOf tree (i-th position)`, parity and key being the ones the output side
+    answers for the same arguments, and that path folds the leaf to the merkle root (T1p); it answers for exactly
+    `0 ≤ i < number of leaves` (a negative index is refused, never read from the end) once the output side has answered. -/
+theorem control_block_construction (o : GroupOps α) {H : TagHash} (h32 : Len32 H) (sec : Option Bytes) (tree : Tree)
+    (i : Int) :
+    (∀ s c, inputScriptSig o H sec tree i = .ok (s, c) →
+      ∃ q par pos v, outputPubkeyAndInternalKey o H sec (some tree) =
+          .ok (q, par, xOnly ((truthyKey sec).getD numsSec)) ∧
+        0 ≤ i ∧ tree.positions[i.toNat]? = some pos ∧ tree.flatten[i.toNat]? = some (v, s) ∧
+        tree.leafAt pos = some (v, s) ∧
+        c = controlBlock par v (xOnly ((truthyKey sec).getD numsSec)) (pathOf H tree pos) ∧
+        c.length = 1 + (xOnly ((truthyKey sec).getD numsSec)).length + 32 * pos.length ∧ pos.length ≤ tree.depth ∧
+        foldPath H (leafHash H v s) (pathOf H tree pos) pos.length = root H tree) ∧
+    (∀ r, outputPubkeyAndInternalKey o H sec (some tree) = .ok r →
+      (0 ≤ i ∧ i < tree.flatten.length → ∃ s c, inputScriptSig o H sec tree i = .ok (s, c)) ∧
+      (¬ (0 ≤ i ∧ i < tree.flatten.length) → inputScriptSig o H sec tree i = .error .index)) := by
+  constructor
+  · intro s c h
+    obtain ⟨q, par, lf, hk, hi, hl, hs, hc⟩ := iss_shape o H sec tree i s c h
+    obtain ⟨pos, hp, hla, hpath⟩ := leaves_get H tree i.toNat lf hl
+    obtain ⟨⟨v, s0⟩, path⟩ := lf
+    simp only at hs hc hla hpath
+    subst hs hpath
+    obtain ⟨h1, h2, h3, -⟩ := pathOf_folds h32 tree pos v s hla
+    have hfl : tree.flatten[i.toNat]? = some (v, s) := by
+      rw [← leaves_fst H tree, List.getElem?_map, hl]; rfl
+    refine ⟨q, par, pos, v, hk, hi, hp, hfl, hla, hc, ?_, h2, h3⟩
+    rw [hc]; unfold controlBlock; simp [h1]; omega
+  · intro r hk
+    rw [← leaves_length H tree]
+    exact iss_answers o H sec tree i r hk
+
+/-- T4d (the depth check): the control block of a leaf at depth `d` is `33 + 32·d` octets; at `d ≤ 128` the length gate
+    lets it through with `m = d`; for `d > 128` `check_output_pubkey` refuses it as too long whatever the key and the
+    script — so a leaf deeper than `MAX_TREE_DEPTH` has no control block it can be spent with. -/
+theorem depth_check (o : GroupOps α) (H : TagHash) (q s : Bytes) (c0 : UInt8) (xb path : Bytes) (d : Nat)
+    (hx : xb.length = 32) (hp : path.length = 32 * d) :
+    (c0 :: (xb ++ path)).length = 33 + 32 * d ∧
+    (MAX_TREE_DEPTH < d → checkOutputPubkey o H q s (c0 :: (xb ++ path)) = .error .toolong) ∧
+    (d ≤ MAX_TREE_DEPTH → lengthGate (c0 :: (xb ++ path)).length = .ok (d : Int)) :=
+  depth_gate o H q s c0 xb path d hx hp
+
+/-- T3m-x (merkle soundness, the colliding pair NAMED): a (version, script, path) that folds to the root of a tree is one
+    of the tree's own leaves with its own path, or one of the (tag, message) pairs `check_output_pubkey` hashes on the
+    claimed path (`checkPreimages`: the leaf preimage and one branch preimage per node) collides with one of the pairs
+    `tree_helper` hashes in the tree (`Tree.preimages`) — two finite lists computable from the inputs. -/
+theorem merkle_soundness_explicit {H : TagHash} (h32 : Len32 H) (t : Tree) (v : Nat) (s path : Bytes) (m : Nat)
+    (hv : v < 256) (hs : s.length < 2 ^ 64) (ht : ∀ s' ∈ t.scripts, s'.length < 2 ^ 64)
+    (hp : path.length = 32 * m) (hf : foldPath H (leafHash H v s) path m = root H t) :
+    ((v, s), path) ∈ leaves H t ∨ CollisionBetween H (checkPreimages H v s path m) (t.preimages H) :=
+  fold_sound_explicit h32 t v s path m hv hs ht hp hf
+
+/-- T3x (tamper direction with every witness named): if `check_output_pubkey(q, s', c')` answers True against the key
+    committed to `xb` and `tree`, then `(s', c')` is exactly an `input_script_sig` pair of `tree`, OR a collision between
+    the preimages hashed on THIS block and the preimages hashed in THIS tree, OR this block's own
+    `(internal key ‖ folded root)` is a second tweak preimage landing on `q`.  `soundness` is its existential shadow. -/
+theorem soundness_explicit (hev : LiftEven o) {H : TagHash} (h32 : Len32 H) (tree : Tree) (xb : Bytes)
+    (hxb : xb.length = 32) (htree : ∀ s ∈ tree.scripts, s.length < 2 ^ 64)
+    (q : Bytes) (par : Nat) (s' c' : Bytes) (hs' : s'.length < 2 ^ 64)
+    (hq : tweakedPubkey o H (2 :: xb) (root H tree) = .ok (q, par))
+    (hc : checkOutputPubkey o H q s' c' = .ok true) :
+    ((∃ lf ∈ leaves H tree, s' = lf.1.2 ∧ c' = controlBlock par lf.1.1 xb lf.2) ∨
+     CollisionBetween H
+      (checkPreimages H ((c'.headD 0).toNat &&& 254) s' (c'.drop 33) ((c'.length - 33) / 32)) (tree.preimages H) ∨
+     TweakAliasAt o H xb (root H tree) q ((c'.drop 1).take 32)
+      (foldPath H (leafHash H ((c'.headD 0).toNat &&& 254) s') (c'.drop 33) ((c'.length - 33) / 32))) ∧
+    (∀ xs ys, CollisionBetween H xs ys → Collision H) ∧
+    (∀ xb' k', TweakAliasAt o H xb (root H tree) q xb' k' → TweakAlias o H xb (root H tree) q) :=
+  ⟨soundness_explicit_aux hev h32 tree xb hxb htree q par s' c' hs' hq hc,
+   fun _ _ h => h.collision, fun _ _ h => h.alias⟩
+
 /-- T5 (`tree_helper` answers script trees and nothing else): a Python value is answered iff it is a well-formed
     script tree — every node a list or tuple of ONE `(int version, list script)` pair or of TWO well-formed nodes —
     and then the answer is `treeHelper` of the `Tree` it spells; every `Tree`, spelled with lists or with tuples, is
@@ -367,6 +454,19 @@ def sec0 : Bytes := 2 :: beBytes 32 5
 def tree0 : Tree := .node (.leaf 0xC1 [0x51]) (.node (.leaf 0xC0 [0x52]) (.leaf 0xC0 [0x52]))
 
 example : Len32 H0 := fun _ _ => by simp [H0]
+
+-- T1p / T1c / T4d on `tree0` (three leaves, an odd version, a duplicated leaf) with the toy hash `Hx`
+example : tree0.positions = [[false], [true, false], [true, true]] ∧
+    tree0.flatten = [(0xC0, [0x51]), (0xC0, [0x52]), (0xC0, [0x52])] ∧
+    tree0.leafAt [true, false] = some (0xC0, [0x52]) ∧ (pathOf Hx tree0 [true, false]).length = 64 := by decide
+example : checkOutputPubkey Toy.ops Hx [] [0x51] (0xC0 :: (List.replicate 32 0 ++ List.replicate (32 * 129) 7)) = .error .toolong :=
+  (depth_check Toy.ops Hx [] [0x51] 0xC0 (List.replicate 32 0) (List.replicate (32 * 129) 7) 129
+    List.length_replicate List.length_replicate).2.1 (by decide)
+-- T3m-x: with the all-zero hash the leaf `(0xC0, OP_3)` "folds to the root" of a one-leaf tree, and the named pair collides
+example : CollisionBetween H0 (checkPreimages H0 0xC0 [0x53] [] 0) ((Tree.leaf 0xC0 [0x51]).preimages H0) :=
+  (merkle_soundness_explicit (fun _ _ => by simp [H0]) (.leaf 0xC0 [0x51]) 0xC0 [0x53] [] 0 (by decide) (by decide)
+    (by decide) rfl rfl).resolve_left (by decide)
+
 
 example : ∃ s c, inputScriptSig Toy.ops H0 (some sec0) tree0 2 = .ok (s, c) ∧
     checkOutputPubkey Toy.ops H0 (outKey Toy.ops (tweakPoint Toy.ops 1 0)).1 s c = .ok true :=
@@ -490,6 +590,20 @@ theorem soundness_secp256k1 (tree : Tree) (xb : Bytes)
     (∃ lf ∈ leaves taggedHash tree, s' = lf.1.2 ∧ c' = controlBlock par lf.1.1 xb lf.2) ∨
     Collision taggedHash ∨ TweakAlias (EC.ops secp256k1) taggedHash xb (root taggedHash tree) q :=
   soundness liftEven_secp256k1 len32_taggedHash tree xb hxb htree q par s' c' hs' hq hc
+
+/-- T3x on secp256k1 with the executed SHA-256 tagged hash: the named-witness form, NO hypothesis about group or hash -/
+theorem soundness_explicit_secp256k1 (tree : Tree) (xb : Bytes)
+    (hxb : xb.length = 32) (htree : ∀ s ∈ tree.scripts, s.length < 2 ^ 64)
+    (q : Bytes) (par : ℕ) (s' c' : Bytes) (hs' : s'.length < 2 ^ 64)
+    (hq : tweakedPubkey (EC.ops secp256k1) taggedHash (2 :: xb) (root taggedHash tree) = .ok (q, par))
+    (hc : checkOutputPubkey (EC.ops secp256k1) taggedHash q s' c' = .ok true) :
+    (∃ lf ∈ leaves taggedHash tree, s' = lf.1.2 ∧ c' = controlBlock par lf.1.1 xb lf.2) ∨
+    CollisionBetween taggedHash
+      (checkPreimages taggedHash ((c'.headD 0).toNat &&& 254) s' (c'.drop 33) ((c'.length - 33) / 32))
+      (tree.preimages taggedHash) ∨
+    TweakAliasAt (EC.ops secp256k1) taggedHash xb (root taggedHash tree) q ((c'.drop 1).take 32)
+      (foldPath taggedHash (leafHash taggedHash ((c'.headD 0).toNat &&& 254) s') (c'.drop 33) ((c'.length - 33) / 32)) :=
+  (soundness_explicit liftEven_secp256k1 len32_taggedHash tree xb hxb htree q par s' c' hs' hq hc).1
 
 /-- T3v on secp256k1 / SHA-256: soundness for EVERY leaf version, nothing assumed -/
 theorem every_leaf_version_sound_secp256k1 (xb : Bytes) (hxb : xb.length = 32)
